@@ -378,7 +378,11 @@ def load_known_findings(prop: str) -> List[Dict[str, Any]]:
         data = json.load(open(KNOWN_FINDINGS))
     except FileNotFoundError:
         return []
-    return [e for e in data.get('findings', []) if e.get('property') == prop]
+    out = [e for e in data.get('findings', []) if e.get('property') == prop]
+    extra = os.environ.get('VERIF_KNOWN_EXTRA')     # development only: entries not yet merged into the file
+    if extra and os.path.exists(extra):
+        out += [e for e in json.load(open(extra)).get('findings', []) if e.get('property') == prop]
+    return out
 
 
 # ---------------------------------------------------------------------------
